@@ -33,6 +33,14 @@ def py_of_node(n) -> str:
 
 
 def describe(line: str) -> str:
+    if line.startswith("after "):
+        # process history: every line is evaluated, in order, in ONE fresh process; the answer judged is the last one's
+        parts = line[6:].split(" ;; ")
+        ds_ = [describe(p) or f"<{p.split(' ', 1)[0]} line>" for p in parts]
+        hist = []
+        for d in ds_[:-1]:
+            hist.append("try:\n    " + d.replace("\n", "\n    ") + "\nexcept Exception:\n    pass   # history only")
+        return "# in one fresh process, in this order:\n" + "\n".join(hist) + "\n# then (this is the answer that is judged):\n" + ds_[-1]
     try:
         t = Toks(line)
         op = t.next()
